@@ -280,13 +280,14 @@ Section Engine.
 
   Definition subset (xs ys : list key) : bool := forallb (fun x => memb x ys) xs.
 
-  (* selected end nodes of all branches (in branch order) and the nodes to report as skipped *)
+  (* selected end nodes of all branches (in branch order) and the nodes to report as skipped: the end nodes
+     no branch selected, except the direct control successors (/repo 665541a: the edge triggers them) *)
   Definition eval_branches (n : node) (out : V) : res (list key * list key) :=
     let sels := map (fun b => (b, choose b out)) (n_branches n) in
     if forallb (fun bs => subset (snd bs) (b_ends (fst bs))) sels then
       let selected := flat_map snd sels in
       let unsel := flat_map (fun bs => filter (fun e => negb (memb e (snd bs))) (b_ends (fst bs))) sels in
-      Ok (selected, nodup N.eq_dec (filter (fun e => negb (memb e selected)) unsel))
+      Ok (selected, nodup N.eq_dec (filter (fun e => negb (memb e selected) && negb (memb e (n_csucc n))) unsel))
     else Err eBranch.
 
   Definition edge_value (n : node) (t : key) (out : V) : V :=
